@@ -16,6 +16,13 @@ evaluates an offline history checker after sender drop and receiver exit:
 
 #[path = "../shared/chan.rs"]
 mod chan;
+#[cfg(not(miri))]
+#[allow(dead_code)]
+#[path = "../shared/chanvt.rs"]
+mod chanvt;
+#[cfg(not(miri))]
+#[path = "../shared/chan_sampler.rs"]
+mod chan_sampler;
 
 use chan::*;
 use vcommon::*;
@@ -79,6 +86,15 @@ fn main() {
 
     let n = args.get_u64("histories", args.n(3_000, 200_000));
     par_cases(&mut r, &args, n, run_case);
+    // metrics sampled next to a live channel: slow, panicking and re-entrant samplers must not cost an accepted item
+    #[cfg(not(miri))]
+    if args.lane != "tsan" {
+        let n_s = args.n(24, 600);
+        // receiver threads sleep for real between polls: scale the delays (the logical back-off state is untouched)
+        emit_batcher::verif::set_delay_divisor(1000);
+        par_cases(&mut r, &args, n_s, |i, r| chan_sampler::sampler_case(r, "C06", seed, i));
+        emit_batcher::verif::set_delay_divisor(1);
+    }
     r.set("distinct_batch_partitions", json!(partitions_seen()));
     std::process::exit(r.finish());
 }
